@@ -353,38 +353,9 @@ func ruleTagHelpers(c *Ctx) {
 	if fn == nil {
 		c.Oblige("G.excluded", false, token.NoPos, "cmd/plenctag.config.isExcluded", "function", "not found", nil)
 	} else {
-		info := fn.Pkg.TypesInfo
-		rets := returnsIn(fn.Decl.Body)
-		good := len(rets) >= 2
-		for i, r := range rets {
-			v := constOf(info, r.Results[0])
-			if v == nil {
-				good = false
-				continue
-			}
-			isLast := i == len(rets)-1
-			if isLast && v.ExactString() != "false" {
-				good = false
-			}
-			if !isLast && v.ExactString() != "true" {
-				good = false
-			}
-		}
-		// each option is consulted independently: one Get per option key, guarded by its own flag
-		keys := map[string]bool{}
-		ast.Inspect(fn.Decl.Body, func(x ast.Node) bool {
-			if call, ok := x.(*ast.CallExpr); ok {
-				// tags.Get("sql") directly, or through a helper that is handed the key
-				for _, a := range call.Args {
-					if v := constOf(info, a); v != nil && v.Kind() == constant.String {
-						keys[v.ExactString()] = true
-					}
-				}
-			}
-			return true
-		})
-		c.Oblige("G.excluded", good && keys[`"sql"`] && keys[`"json"`], fn.Decl.Pos(), fn.Name(), "exclusion options are independent",
-			"each of the sql/json options can only say 'excluded'; a key that is present but not \"-\" must not stop the other option from being consulted (early returns must be the constant true, the final return false)", nil)
+		ok, why := excludedIndependent(p)
+		c.Oblige("G.excluded", ok, fn.Decl.Pos(), fn.Name(), "exclusion options are independent",
+			"each of the sql/json options can only say 'excluded'; a key that is present but not \"-\" must not stop the other option from being consulted, and with no option set nothing is excluded: "+why, nil)
 	}
 	// the ast.Inspect callback always continues into children (nested struct types)
 	var rf *ssa.Function
@@ -566,4 +537,129 @@ func ruleTightGuards(c *Ctx, B *Bound, filter func(name string) bool) {
 		a.pass()
 	}
 	_ = n
+}
+
+// excludedIndependent decides isExcluded's shape by feasibility: with every
+// option of the configuration forced on, a result that is not the constant
+// true is reachable only after both the "sql" and the "json" key have been
+// consulted; with every option forced off every result is the constant false.
+func excludedIndependent(p *Prog) (bool, string) {
+	f := p.ssaFunc("cmd/plenctag.config.isExcluded")
+	if f == nil || len(f.Params) == 0 {
+		return false, "function not found"
+	}
+	recv := f.Params[0]
+	isOption := func(v ssa.Value) bool {
+		if b, ok := v.Type().Underlying().(*types.Basic); !ok || b.Kind() != types.Bool {
+			return false
+		}
+		switch x := v.(type) {
+		case *ssa.Field:
+			return x.X == recv
+		case *ssa.UnOp:
+			if fa, ok := x.X.(*ssa.FieldAddr); ok && x.Op == token.MUL {
+				if fa.X == recv {
+					return true
+				}
+				// value receiver spilled to a local
+				if al, ok := fa.X.(*ssa.Alloc); ok {
+					for _, r := range *al.Referrers() {
+						if st, ok := r.(*ssa.Store); ok && st.Addr == al && st.Val == recv {
+							return true
+						}
+					}
+				}
+			}
+		}
+		return false
+	}
+	consult := map[string]map[*ssa.BasicBlock]bool{"sql": {}, "json": {}}
+	for _, b := range f.Blocks {
+		for _, in := range b.Instrs {
+			call, ok := in.(ssa.CallInstruction)
+			if !ok {
+				continue
+			}
+			for _, a := range call.Common().Args {
+				if k, ok := a.(*ssa.Const); ok && k.Value != nil && k.Value.Kind() == constant.String {
+					if m := consult[constant.StringVal(k.Value)]; m != nil {
+						m[b] = true
+					}
+				}
+			}
+		}
+	}
+	for _, key := range []string{"sql", "json"} {
+		if len(consult[key]) == 0 {
+			return false, "the " + key + " key is never consulted"
+		}
+	}
+	force := func(val bool) *feas {
+		return feasibleUnder(f, func(v ssa.Value) (constant.Value, bool) {
+			if isOption(v) {
+				return constant.MakeBool(val), true
+			}
+			return nil, false
+		})
+	}
+	// results reachable from the entry through feasible edges, not passing a block of avoid
+	results := func(fe *feas, avoid map[*ssa.BasicBlock]bool) []ssa.Value {
+		var out []ssa.Value
+		seen := map[*ssa.BasicBlock]bool{}
+		via := map[[2]*ssa.BasicBlock]bool{}
+		var walk func(b *ssa.BasicBlock)
+		walk = func(b *ssa.BasicBlock) {
+			if seen[b] || avoid[b] {
+				return
+			}
+			seen[b] = true
+			for _, sc := range b.Succs {
+				if fe.feasible[[2]*ssa.BasicBlock{b, sc}] {
+					via[[2]*ssa.BasicBlock{b, sc}] = true
+					walk(sc)
+				}
+			}
+		}
+		walk(f.Blocks[0])
+		var expand func(v ssa.Value, depth int)
+		expand = func(v ssa.Value, depth int) {
+			if ph, ok := v.(*ssa.Phi); ok && depth < 6 {
+				for i, e := range ph.Edges {
+					if via[[2]*ssa.BasicBlock{ph.Block().Preds[i], ph.Block()}] && !avoid[ph.Block()] {
+						expand(e, depth+1)
+					}
+				}
+				return
+			}
+			out = append(out, v)
+		}
+		for b := range seen {
+			if ret, ok := b.Instrs[len(b.Instrs)-1].(*ssa.Return); ok && len(ret.Results) == 1 {
+				expand(ret.Results[0], 0)
+			}
+		}
+		return out
+	}
+	isConstBool := func(v ssa.Value, want bool) bool {
+		k, ok := v.(*ssa.Const)
+		return ok && k.Value != nil && k.Value.Kind() == constant.Bool && constant.BoolVal(k.Value) == want
+	}
+	on := force(true)
+	if !on.sawLeaf {
+		return false, "no option of the configuration is tested"
+	}
+	for _, key := range []string{"sql", "json"} {
+		for _, v := range results(on, consult[key]) {
+			if !isConstBool(v, true) {
+				return false, "with every option on, a result other than true is reached without consulting the " + key + " key"
+			}
+		}
+	}
+	off := force(false)
+	for _, v := range results(off, nil) {
+		if !isConstBool(v, false) {
+			return false, "with every option off, a result other than false is reachable"
+		}
+	}
+	return true, "decided under forced options"
 }
